@@ -149,7 +149,7 @@ func PrefixArgs(p string, overrides map[string]string) []string {
 
 // wrapper: the user function holding one derive call.
 func wrapper(i int, c CallSpec, t TypeSpec) string {
-	f := fmt.Sprintf("f%d", i)
+	f := fmt.Sprintf("Wrap%d", i)
 	switch c.Plugin {
 	case "equal":
 		return fmt.Sprintf("func %s(a, b %s) bool { return %s(a, b) }\n", f, t.Go, c.Name)
